@@ -507,7 +507,7 @@ func (r *run) exec() {
 	}
 	if aborted != nil {
 		if aborted.Why == "deadlock" {
-			r.fail("deadlock", "", "extraction deadlocked after %d steps in pass %d: %s", s.Step, f.maxPass, s.Describe())
+			r.fail("deadlock", "", "extraction deadlocked after %d steps in pass %d (no task can run): %s", s.Step, f.maxPass, s.AbortDesc)
 		} else {
 			r.fail("no-termination", "", "extraction did not finish within %d scheduler steps (pass %d)", s.Step, f.maxPass)
 		}
